@@ -133,7 +133,9 @@ FlushOuts(c) ==
   IF S = <<>> THEN {[j |-> 0, k |-> "none", n |-> 0]}                   \* no entry any more
   ELSE IF sockdead[c] THEN {[j |-> 1, k |-> "fatal", n |-> 0]}
   ELSE {[j |-> Len(S) + 1, k |-> "all", n |-> 0]}
-       \cup {[j |-> j, k |-> kk, n |-> 0] : j \in 1..Len(S), kk \in {"eagain", "fatal"}}
+       \cup {[j |-> j, k |-> "eagain", n |-> 0] : j \in 1..Len(S)}
+       \cup {[j |-> 1, k |-> "fatal", n |-> 0]}      \* (a fatal error after some bytes of the same flush would
+                                                     \*  depend on how the sender slices its data into writes)
        \cup {[j |-> j, k |-> "part", n |-> 1] : j \in {i \in 1..Len(S) : Len(S[i]) > 1}}
 
 DefFlush(outs) ==
@@ -171,7 +173,8 @@ DefFlush(outs) ==
      /\ pinged' = (pinged /\ ~dthr.rl)
   /\ dthr' = Top
   /\ UNCHANGED <<queued, closed, nsent, coop>>
-  /\ LogA("DefFlush", [outs |-> outs],
+  /\ LogA("DefFlush", [outs |-> outs,      \* q: bytes each socket accepts in this flush (drives the scripted sockets)
+                       q |-> [c \in dthr.wl |-> Len(accepted'[c]) - Len(accepted[c])]],
           IF (\A c \in Conns : dq'[c] = <<>>) /\ sending
              /\ (~(\E c \in dthr.wl : outs[c].k = "all") \/ (\E c \in dthr.wl : outs[c].k = "fatal"))
           THEN {"sending"} ELSE {})
